@@ -385,23 +385,51 @@ func c13r4(c *Check) {
 	c.Judge(okRead, "input.Pickle.Handle length header read", pos, "binary.Read(r, binary.BigEndian, *uint32): reads all four bytes whatever the segmentation", "the frame length is not read with binary.Read(…, BigEndian, *uint32): a partial Read of the header (segment boundary inside the 4 bytes) yields a wrong length and kills the connection")
 	// (b) payload loop exit
 	okExit := false
-	allInstrs(fn, func(in ssa.Instruction) {
-		ifi, ok := in.(*ssa.If)
-		if !ok || lengthAlloc == nil {
-			return
-		}
-		bo, ok := ifi.Cond.(*ssa.BinOp)
-		if !ok || bo.Op != token.EQL {
-			return
-		}
-		// one side derives from the length header (through int conversion), other is an accumulating phi
+	// the chunk loop may live in a helper that is given the frame length
+	for _, f := range samePkgCallees(c.P, fn) {
+		f := f
 		fromLen := func(v ssa.Value) bool {
-			return derivedFrom(v, lengthAlloc, map[ssa.Value]bool{})
+			if lengthAlloc == nil {
+				return false
+			}
+			if f == fn {
+				return derivedFrom(v, lengthAlloc, map[ssa.Value]bool{})
+			}
+			for _, par := range f.Params {
+				if !derivedFrom(v, par, map[ssa.Value]bool{}) {
+					continue
+				}
+				args, ok := c.P.paramArgs(par)
+				if !ok {
+					continue
+				}
+				all := true
+				for _, a := range args {
+					if !derivedFrom(a, lengthAlloc, map[ssa.Value]bool{}) {
+						all = false
+					}
+				}
+				if all {
+					return true
+				}
+			}
+			return false
 		}
-		if (fromLen(bo.X) && isAccumulator(bo.Y)) || (fromLen(bo.Y) && isAccumulator(bo.X)) {
-			okExit = true
-		}
-	})
+		allInstrs(f, func(in ssa.Instruction) {
+			ifi, ok := in.(*ssa.If)
+			if !ok {
+				return
+			}
+			bo, ok := ifi.Cond.(*ssa.BinOp)
+			if !ok || bo.Op != token.EQL {
+				return
+			}
+			// one side derives from the length header (through int conversion), other is an accumulating phi
+			if (fromLen(bo.X) && isAccumulator(bo.Y)) || (fromLen(bo.Y) && isAccumulator(bo.X)) {
+				okExit = true
+			}
+		})
+	}
 	c.Judge(okExit, "input.Pickle.Handle payload read until length reached", pos, "the chunk loop ends when bytes read == frame length", "the payload loop does not end exactly when the announced number of bytes has been read")
 	// (c) checkProtocol
 	cp := c.P.Func("input", "", "checkProtocol")
